@@ -1037,6 +1037,7 @@ class Project:
         if copytree is None:
             copytree = shutil.copytree
         dst = self.open_job(job.statepoint())
+        dst_existed = os.path.lexists(dst.path)
         try:
             copytree(job.path, dst.path)
         except OSError as error:
@@ -1045,6 +1046,11 @@ class Project:
             elif error.errno == errno.ENOENT:
                 raise ValueError("Source job not initialized.")
             else:
+                if not dst_existed:
+                    # Whatever is at the destination now is a partial copy made by
+                    # this call: remove it, otherwise it would look like a valid job
+                    # with missing data.
+                    shutil.rmtree(dst.path, ignore_errors=True)
                 raise
         return dst
 
